@@ -17,13 +17,14 @@ import Driver.Handlers.Pages
 import Driver.Handlers.Html
 import Driver.Handlers.Query
 import Driver.Handlers.MergeGraph
+import Driver.Handlers.MergeComposed
 import Driver.Handlers.Cache
 import Driver.Handlers.Merge
 import Driver.Handlers.Publish
 namespace Driver
 
 def handlers : List (String → List String → Option String) :=
-  [handleDates, handleSimilarity, handleMatch, handleDateParse, handleDecoder, handleDiff, handleResolve, handleWarnings, handleEqual, handleLiving, handlePages, handleHtml, handleQuery, handleMergeGraph, handleMergeDocs, handleCache, handleMerge, handlePublish]
+  [handleDates, handleSimilarity, handleMatch, handleDateParse, handleDecoder, handleDiff, handleResolve, handleWarnings, handleEqual, handleLiving, handlePages, handleHtml, handleQuery, handleMergeGraph, handleMergeDocs, handleMergeComposed, handleCache, handleMerge, handlePublish]
 
 def respond (line : String) : String :=
   match line.splitOn " " with
